@@ -141,7 +141,11 @@ pub const ERR_PRIVILEGE_ESCALATION: u32 = 0xdead_0001;
 struct Stubs;
 
 impl SyscallStubs for Stubs {
-    fn sol_log(&self, _m: &str) {}
+    fn sol_log(&self, _m: &str) {
+        if std::env::var_os("SVM_LOG").is_some() {
+            eprintln!("LOG {_m}");
+        }
+    }
     fn sol_log_data(&self, _f: &[&[u8]]) {}
     fn sol_log_compute_units(&self) {}
     fn sol_get_clock_sysvar(&self, var_addr: *mut u8) -> u64 {
